@@ -16,7 +16,7 @@ pub fn def() -> PropDef {
         nontrivial,
         functional: true,
         post: super::no_post,
-        rule: "int, uint and double literals from boundary sets (0, +-1, +-2^31, +-2^53+-1, i64/u64 limits and their out-of-range neighbours; NaN-free double patterns incl. subnormals, -0.0, extremes) written in decimal, hexadecimal, signed and exponent forms; int(), uint(), double(), string(), bytes() applied to boundary arguments of every kind (as literals and as context variables, so NaN and infinities are reachable) and the round trips int(string(i)), uint(string(u)), double(string(d)), string(bytes(s)); plus random 64-bit patterns in every literal form, and doubles that sit exactly between two shortest decimal candidates (printing ties); expected values come from i128 / IEEE arithmetic in the harness; non-trivial = the case is not a plain small literal; distinct = distinct (context, source)",
+        rule: "int, uint and double literals from boundary sets (0, +-1, +-2^31, +-2^53+-1, i64/u64 limits and their out-of-range neighbours; NaN-free double patterns incl. subnormals, -0.0, extremes) written in decimal, hexadecimal, signed and exponent forms, and in padded forms (leading zeros in exponent and mantissa, the decimal point moved up to 700 places with a compensating exponent); int(), uint(), double(), string(), bytes() applied to boundary arguments of every kind (as literals and as context variables, so NaN and infinities are reachable) and the round trips int(string(i)), uint(string(u)), double(string(d)), string(bytes(s)); plus random 64-bit patterns in every literal form, and doubles that sit exactly between two shortest decimal candidates (printing ties); expected values come from i128 / IEEE arithmetic in the harness; non-trivial = the case is not a plain small literal; distinct = distinct (context, source)",
         exhaustive_note: "boundary sets x forms are enumerated completely; random patterns are a sample",
     }
 }
@@ -199,6 +199,33 @@ pub fn generate(tier: Tier, rng: &mut Rng) -> Vec<Case> {
         ("bytes(1)", "(res (err bad-type) (log))".to_string()), ("bytes(b'a')", "(res (err bad-type) (log))".to_string()),
     ] {
         push(&mut out, &spec, src.to_string(), Some(want), vec!["special"]);
+    }
+    // the same number written with padding: leading zeros in the exponent and in the mantissa,
+    // the decimal point moved hundreds of places with a compensating exponent - each text denotes
+    // exactly the rational that the shortest form of `f` denotes, so it must read as `f`
+    for f in [1.0f64, 10.0, 0.1, 1.5, 123.456, 5e-324, 2.2250738585072014e-308, 1.7976931348623157e308, 9.007199254740993e15, 1e22, 1e-7, 0.3, 4.35e-310, 6.02214076e23] {
+        let e = format!("{f:e}"); // d.ddde±X  (or de±X)
+        let (mant, ex) = e.split_once('e').unwrap();
+        let ex: i64 = ex.parse().unwrap();
+        let digits: String = mant.chars().filter(|c| *c != '.').collect();
+        let frac_len = mant.len().saturating_sub(2).min(digits.len() - 1) as i64; // digits after the point
+        let mut forms: Vec<String> = vec![];
+        for pad in [1usize, 7, 8, 19, 40] {
+            forms.push(format!("{mant}e{}{}{}", if ex < 0 { "-" } else { "" }, "0".repeat(pad), ex.abs()));
+            forms.push(format!("{mant}E+{}{}", "0".repeat(pad), ex.abs()).replace("E+", if ex < 0 { "E-" } else { "E+" }));
+            forms.push(format!("{}{mant}e{ex}", "0".repeat(pad)));
+        }
+        for shift in [1i64, 5, 40, 329, 330, 331, 400, 401, 700] {
+            // 0.000…0ddd × 10^(ex + shift + 1)
+            forms.push(format!("0.{}{digits}e{}", "0".repeat(shift as usize), ex + shift + 1));
+            // ddd000…0.0 × 10^(ex - frac_len - shift)
+            forms.push(format!("{digits}{}.0e{}", "0".repeat(shift as usize), ex - frac_len - shift));
+        }
+        for t in forms {
+            push(&mut out, &spec, t.clone(), Some(ok(&vd(f))), vec!["literal", "double-padded"]);
+            push(&mut out, &spec, format!("double('{t}')"), Some(ok(&vd(f))), vec!["conv", "double-padded"]);
+            push(&mut out, &spec, format!("-{t}"), Some(ok(&vd(-f))), vec!["literal", "double-padded"]);
+        }
     }
     // strings: bytes() then string() returns the original text
     let n = if tier == Tier::Quick { 300 } else { 30_000 };
